@@ -310,6 +310,8 @@ static void run_case (char *id, char *mode, char *engine, char *target, char *mi
         memset (c06_in, 0, sizeof (c06_in));
         memset (c05_img, 0, sizeof (c05_img));
         unhex (iohex, c06_in, sizeof (c06_in));
+        /* optional tail: what the assembly probe returns when the MIR function itself calls it */
+        if (strlen (iohex) > 2 * sizeof (c06_in)) unhex (iohex + 2 * sizeof (c06_in), c05_ret, sizeof (c05_ret));
         c06_tramp (addr);
       }
     }
